@@ -179,7 +179,20 @@ def gen_path(rng):
     def rnd():
         return [rng.uniform(-1, 1) * scale, rng.uniform(-1, 1) * scale]
 
-    if c < 0.12:
+    if c < 0.05:
+        # a node repeated with retracted handles: the piece between the twins has all four
+        # control points at one position (zero-length chord AND zero-length handles)
+        cls = "repeated node (fully degenerate piece)"
+        n = max(n, 2)
+        style = rng.randrange(3)
+        for i in range(n):
+            p = rnd() if style else [float(rng.randint(-5, 5)), float(rng.randint(-5, 5))]
+            nodes.append([rnd() if style == 1 else list(p), list(p), rnd() if style == 1 else list(p)])
+        k = rng.randrange(n)
+        twin = nodes[k][1]
+        nodes[k][2] = list(twin)                                   # out-handle retracted
+        nodes.insert(k + 1, [list(twin), list(twin), rnd() if style == 1 else list(twin)])
+    elif c < 0.12:
         cls = "already flat (handles on the chord)"
         pts = [rnd() for _ in range(n)]
         for i, p in enumerate(pts):
@@ -276,7 +289,7 @@ def run(ctx):
     for cls in ("already flat (handles on the chord)", "handles equal to their nodes (straight lines)",
                 "circular arcs", "S-curves", "loops (handles cross)", "cusps",
                 "coincident end points (closed piece)", "integer lattice control points",
-                "random control points", "nodes=1", "nodes=2", "nodes=3..12",
+                "repeated node (fully degenerate piece)", "random control points", "nodes=1", "nodes=2", "nodes=3..12",
                 "flat/scale=1e-5..1e-4", "flat/scale=1e-4..1e-3", "flat/scale=1e-3..1e-2",
                 "flat/scale=1e-2..1e-1", "flat/scale=1e-1..1e0",
                 "outcome:piece subdivided", "outcome:piece left whole"):
